@@ -25,7 +25,8 @@ AArch64 operands
 
 The generators decide *what* is written (tokens), the renderers decide *how* it is laid out (white space, tabs,
 separator spacing, trailing comment).  The oracle of C09 / C10 compares the parser's result with the AST the text was
-rendered from; nothing in this module calls OSACA.
+rendered from.  The last part of the module is the ISA-independent half of that monitor (line / file structure oracle,
+counters, exception classifier); it never imports OSACA - the parser object under test is handed in by the property module.
 """
 
 # ----------------------------------------------------------------------------------------------------------------------
@@ -651,8 +652,10 @@ def misc_line(r, isa, kind):
     text = lead + "." + name + ((r.choice([" ", "\t", "  "]) + params) if params else "")
     comment = None
     m = None
-    if r.random() < 0.2:
+    if r.random() < 0.3:
         words = [w for w in comment_body(r) if '"' not in w and "'" not in w]
+        if words and r.random() < 0.3:
+            words[0] = words[0].rstrip(",") + ","  # a comment that contains a comma
         m = "#" if isa == "x86" else "//"
         text += r.choice([" ", "\t", "  "]) + render_comment(r, m, words)
         comment = norm_comment(words)
@@ -867,6 +870,8 @@ def count_item(isa, item, R, prefix=""):
         R.count(prefix + "line:" + k + ("/" + item["sub"] if item.get("sub") else "") + ("/" + item["marker"] if k == "comment" else ""))
         if k != "comment" and item.get("comment") is not None:
             R.count(prefix + "line:%s+trailing-comment" % k)
+            if "," in item["comment"]:
+                R.count(prefix + "line:%s+trailing-comment-with-comma" % k)
 
 
 def a64_mem_form(m):
